@@ -6,6 +6,7 @@ from __future__ import annotations
 import copy
 import hashlib
 import itertools
+import os
 import json
 import signal
 import sys
@@ -479,7 +480,63 @@ def quick_filter(label: str) -> bool:
     return dc.level_of(label) <= 1 or label.endswith("[int]]") or label.endswith("[float]]")
 
 
+FAILING_VALIDATORS_SRC = '''
+@dataclass
+class Hist:
+    bounds: List[int] = field(default_factory=list)
+    values: List[int] = field(default_factory=list)
+    label: str = field(default="")
+    # discards a field it does not read itself
+    @validator(discard=values)
+    def bounds_sorted(self):
+        if self.bounds != sorted(self.bounds):
+            raise ValidationError("bounds not sorted")
+    @validator
+    def values_in_bounds(self):
+        if self.bounds and any(v > self.bounds[-1] for v in self.values):
+            yield get_alias(self).values, "value above the last bound"
+    # located at a field it never reads
+    @validator(label)
+    def some_bounds(self):
+        if len(self.bounds) == 1:
+            raise ValidationError("a single bound")
+'''
+
+
+def run_failing_validators(st):
+    """validators that fail (raise / yield, with discard / field location on fields they do not read themselves) on every
+    combination of field states, next to structural errors: still nothing but a ValidationError, and it terminates"""
+    from ..realize import PRELUDE, exec_source
+
+    mod = exec_source(PRELUDE + "from apischema.objects import get_alias\n" + FAILING_VALIDATORS_SRC)
+    case = _WorldCase("validators:Hist", PRELUDE + FAILING_VALIDATORS_SRC)
+    states = {"bounds": [None, [1, 2], [2, 1], [5], "x", [1, "y"]], "values": [None, [1], [9], "x", [None]], "label": [None, "ok", 7]}
+    signal.signal(signal.SIGALRM, _alarm)
+    for co, ap, fb, nc in OPTS4:
+        method = apischema.deserialization_method(mod.Hist, coerce=co, additional_properties=ap, fall_back_on_default=fb, no_copy=nc)
+        for combo in itertools.product(*states.values()):
+            d = {k: v for k, v in zip(states, combo) if v is not None}
+            signal.alarm(20)
+            try:
+                check_one(case, method, d, st, (co, ap, fb, nc), "validators", 1)
+            except Timeout:
+                st.violation({"label": case.label, "datum": repr(d), "signature": {"kind": "timeout", "shape": "validators"}, "what": f"deserialize(Hist, {d!r}) did not terminate"})
+            finally:
+                signal.alarm(0)
+    import sys
+
+    sys.modules.pop(mod.__name__, None)
+    apischema.cache.reset()
+
+
 def work(tier, widx, nworkers, st, extra):
+    if widx == (2 % nworkers) and os.environ.get("VERIF_ONLY") in (None, "", "validators"):
+        try:
+            run_failing_validators(st)
+        except Exception:
+            import traceback
+
+            st.violation({"signature": {"kind": "harness_error"}, "harness_error": True, "what": "failing validators", "traceback": traceback.format_exc()[-2000:]})
     signal.signal(signal.SIGALRM, _alarm)
     for i, label, spec in dc.my_types("quick", widx, nworkers):
         if tier == "quick" and not quick_filter(label):
